@@ -190,6 +190,10 @@ pub enum Policy {
     Replay(Vec<usize>, Box<Policy>),
     /// uniformly random among enabled threads, staying on the current thread with prob stick/16
     Random(crate::types::SplitMix64, u64),
+    /// as Random, but thread `.2` sleeps from its `.3`-th yield point on for `.4` scheduler steps
+    /// (or until nobody else can run): the schedules in which one thread is descheduled for a
+    /// long time at an arbitrary point - stale reads, ABA
+    Sleeper(crate::types::SplitMix64, u64, usize, u64, u64),
     RoundRobin,
     /// run the given thread whenever it is enabled (solo runs)
     Prefer(usize),
@@ -220,6 +224,40 @@ pub fn fn_of(file: &str, line: u32) -> Option<String> {
         .map(|r| r.2.clone())
 }
 
+/// One scheduler step: the thread that ran, how many calls of its program it had completed, and
+/// the yield point it continued from. `kind`: 0 = access to a pointer cell, 1 = lock, 2 = thread
+/// start, 3 = other (harness yield, spin), 4 = access to an integer control word, 5 = park;
+/// `aux` (kinds 0 and 4) = access kind (0 load, 1 store, 2 swap, 3 cas, 4 rmw, 5 clone-load) +
+/// 16 * cell (0 ptr, 1 size_ctl, 2 transfer_index, 3 count, 4 lock_state).
+#[derive(Clone, Copy, Debug)]
+pub struct TraceSite {
+    pub tid: u16,
+    pub op_index: u16,
+    pub file: &'static str,
+    pub line: u32,
+    pub kind: u8,
+    pub aux: u8,
+}
+
+pub fn aux_of(op: &Op) -> u8 {
+    let k = match op.kind {
+        Kind::Load => 0,
+        Kind::Store => 1,
+        Kind::Swap => 2,
+        Kind::Cas => 3,
+        Kind::Rmw => 4,
+        Kind::CloneLoad => 5,
+    };
+    let c = match op.cell {
+        VCell::Ptr => 0,
+        VCell::SizeCtl => 1,
+        VCell::TransferIndex => 2,
+        VCell::Count => 3,
+        VCell::LockState => 4,
+    };
+    k + 16 * c
+}
+
 pub struct Inner {
     pub status: Vec<Status>,
     pub tokens: Vec<bool>,
@@ -248,9 +286,9 @@ pub struct Inner {
     pub directive_steps: u64,
     /// the yield point each thread is waiting at: (file, line, 0 = atomic access, 1 = lock,
     /// 2 = thread start, 3 = anything else)
-    pub pending: Vec<(&'static str, u32, u8)>,
+    pub pending: Vec<(&'static str, u32, u8, u8)>,
     /// per scheduler step: the thread that ran and the yield point it continued from
-    pub trace_sites: Vec<(u16, &'static str, u32, u8)>,
+    pub trace_sites: Vec<TraceSite>,
 }
 
 pub struct Sched {
@@ -285,7 +323,7 @@ impl Sched {
                 last_op: vec![("", 0); n],
                 ops_done: vec![0; n],
                 directive_steps: 0,
-                pending: vec![("", 0, 2); n],
+                pending: vec![("", 0, 2, 0); n],
                 trace_sites: Vec::new(),
             }),
             cv: Condvar::new(),
@@ -339,6 +377,29 @@ impl Sched {
                     }
                 }
                 Policy::Random(rng, stick) => {
+                    if let Some(m) = me {
+                        if en.contains(&m) && rng.below(16) < *stick {
+                            break m;
+                        }
+                    }
+                    break en[rng.below(en.len() as u64) as usize];
+                }
+                Policy::Sleeper(rng, stick, victim, at, dur) => {
+                    let asleep = inner.steps_of[*victim] >= *at && *dur > 0;
+                    let others: Vec<usize> = en.iter().cloned().filter(|t| t != victim).collect();
+                    if asleep && !others.is_empty() {
+                        *dur -= 1;
+                        if let Some(m) = me {
+                            if others.contains(&m) && rng.below(16) < *stick {
+                                break m;
+                            }
+                        }
+                        break others[rng.below(others.len() as u64) as usize];
+                    }
+                    if asleep {
+                        // nobody else can run: the sleep is over
+                        *dur = 0;
+                    }
                     if let Some(m) = me {
                         if en.contains(&m) && rng.below(16) < *stick {
                             break m;
@@ -426,8 +487,9 @@ impl Sched {
                 g.current = Some(t);
                 g.trace.push(t as u16);
                 let pd = g.pending[t];
-                g.trace_sites.push((t as u16, pd.0, pd.1, pd.2));
-                g.pending[t] = ("", 0, 3);
+                let oi = g.ops_done[t] as u16;
+                g.trace_sites.push(TraceSite { tid: t as u16, op_index: oi, file: pd.0, line: pd.1, kind: pd.2, aux: pd.3 });
+                g.pending[t] = ("", 0, 3, 0);
             }
             None => {
                 g.current = None;
@@ -737,7 +799,7 @@ impl Hooks for H {
                 {
                     let mut g = s.inner.lock().unwrap();
                     g.last_op[*me] = (op.loc.file(), op.loc.line());
-                    g.pending[*me] = (op.loc.file(), op.loc.line(), if op.cell == flurry::verif::Cell::Ptr { 0 } else { 3 });
+                    g.pending[*me] = (op.loc.file(), op.loc.line(), if op.cell == flurry::verif::Cell::Ptr { 0 } else { 4 }, aux_of(op));
                 }
                 if s.yield_as(*me, Status::Ready).is_err() {
                     abort_thread();
@@ -762,7 +824,7 @@ impl Hooks for H {
             Mode::Sched(me, s) => {
                 LOG.with(|l| l.borrow_mut().locks.push((loc.file(), loc.line())));
                 {
-                    s.inner.lock().unwrap().pending[*me] = (loc.file(), loc.line(), 1);
+                    s.inner.lock().unwrap().pending[*me] = (loc.file(), loc.line(), 1, 0);
                 }
                 if s.yield_as(*me, Status::WaitLock(lock as *const _ as usize)).is_err() {
                     abort_thread();
@@ -787,7 +849,9 @@ impl Hooks for H {
             Mode::Sched(me, s) => {
                 LOG.with(|l| l.borrow_mut().parks += 1);
                 {
-                    s.inner.lock().unwrap().park_events += 1;
+                    let mut g = s.inner.lock().unwrap();
+                    g.park_events += 1;
+                    g.pending[*me] = (_loc.file(), _loc.line(), 5, 0);
                 }
                 if s.yield_as(*me, Status::Parked).is_err() {
                     abort_thread();
